@@ -227,31 +227,55 @@ theorem keeps_doLoad (cfg : Cfg) (pol : Policy) (i : Nat) (w : World) (A : Obj) 
   · rw [h1]; exact Keeps.setO _ _
 
 theorem execLoadCore_good {cfg : Cfg} {pol : Policy} {i : Nat} {sub : Sub}
-    (hsub : GoodSub cfg.bb sub) {w : World} (hw : Inv w) {a : Oid} {A : Obj} (hA : getO w.objs a = some A) (p : Path)
-    (first : Bool) :
-    Inv (execLoadCore cfg pol i sub w a A p first).1 ∧
-    Chain cfg.bb w.objs (execLoadCore cfg pol i sub w a A p first).2 (execLoadCore cfg pol i sub w a A p first).1.objs ∧
-    Keeps w.objs (execLoadCore cfg pol i sub w a A p first).1.objs := by
-  have hopx : ∀ t, Op.load p ≠ .exportUid t := by intro t h; cases h
-  have hops : ∀ t, Op.load p ≠ .seteuidStr t := by intro t h; cases h
-  have hx := load_ok hw hA cfg pol i p
+    (hsub : GoodSub cfg.bb sub) {w : World} (hw : Inv w) {a : Oid} {A : Obj} (hA : getO w.objs a = some A) (p p' : Path)
+    (first : Bool) (k : Option (World → World × List StepRec))
+    (hk : ∀ k', k = some k' → ∀ W, Inv W → Inv (k' W).1 ∧ Chain cfg.bb W.objs (k' W).2 (k' W).1.objs ∧ Keeps W.objs (k' W).1.objs) :
+    Inv (execLoadCore cfg pol i sub w a A p (.load p') first k).1 ∧
+    Chain cfg.bb w.objs (execLoadCore cfg pol i sub w a A p (.load p') first k).2
+      (execLoadCore cfg pol i sub w a A p (.load p') first k).1.objs ∧
+    Keeps w.objs (execLoadCore cfg pol i sub w a A p (.load p') first k).1.objs := by
+  have hopx : ∀ t, Op.load p' ≠ .exportUid t := by intro t h; cases h
+  have hops : ∀ t, Op.load p' ≠ .seteuidStr t := by intro t h; cases h
+  have hx := load_ok hw hA cfg pol i p p'
   obtain ⟨hvs, hcase⟩ := doLoad_facts cfg pol i w A p
   cases hc : createdNow (doLoad cfg pol i w A p).2.1 with
   | none =>
     simp only [execLoadCore, hc, singleF]
     exact ⟨hx.inv, Chain.single (seg_of_recOf first hx), keeps_doLoad cfg pol i w A p⟩
   | some o =>
-    simp only [execLoadCore, hc]
     obtain ⟨hy1, hy2, hy3⟩ := hsub (doLoad cfg pol i w A p).1 o.oid p.name hx.inv
     have hx' : StepOK cfg.bb w.objs (doLoad cfg pol i w A p).1
-        (recOf (doLoad cfg pol i w A p).1 a (.load p) none (doLoad cfg pol i w A p).2.1 (doLoad cfg pol i w A p).2.2.2) := by
+        (recOf (doLoad cfg pol i w A p).1 a (.load p') none (doLoad cfg pol i w A p).2.1 (doLoad cfg pol i w A p).2.2.2) := by
       have := hx
       unfold recOfR at this
       rw [hvs] at this
       exact this
-    refine ⟨hy1, ?_, Keeps.trans (keeps_doLoad cfg pol i w A p) hy3⟩
-    exact Chain.cons (creation_seg_ok first hx' hopx)
-      (Chain.append hy2 (Chain.single (final_seg_ok hy1 a (.load p) _ hopx hops)))
+    cases k with
+    | none =>
+      simp only [execLoadCore, hc]
+      refine ⟨hy1, ?_, Keeps.trans (keeps_doLoad cfg pol i w A p) hy3⟩
+      exact Chain.cons (creation_seg_ok first hx' hopx)
+        (Chain.append hy2 (Chain.single (final_seg_ok hy1 a (.load p') _ hopx hops)))
+    | some k' =>
+      simp only [execLoadCore, hc]
+      obtain ⟨hz1, hz2, hz3⟩ := hk k' rfl _ hy1
+      refine ⟨hz1, ?_, Keeps.trans (keeps_doLoad cfg pol i w A p) (Keeps.trans hy3 hz3)⟩
+      exact Chain.cons (creation_seg_ok first hx' hopx) (Chain.append hy2 hz2)
+
+theorem loadPlain_good {cfg : Cfg} {pol : Policy} {i : Nat} {run : Run} {sub : Sub} (hrun : GoodRun cfg.bb run)
+    (hsub : GoodSub cfg.bb sub) {w : World} (hw : Inv w) {a : Oid} {A : Obj} (hA : getO w.objs a = some A) (p p' : Path)
+    (first : Bool) (k : Option (World → World × List StepRec))
+    (hk : ∀ k', k = some k' → ∀ W, Inv W → Inv (k' W).1 ∧ Chain cfg.bb W.objs (k' W).2 (k' W).1.objs ∧ Keeps W.objs (k' W).1.objs) :
+    Inv (loadPlain cfg pol i run sub w a A p (.load p') first k).1 ∧
+    Chain cfg.bb w.objs (loadPlain cfg pol i run sub w a A p (.load p') first k).2
+      (loadPlain cfg pol i run sub w a A p (.load p') first k).1.objs ∧
+    Keeps w.objs (loadPlain cfg pol i run sub w a A p (.load p') first k).1.objs := by
+  have hopx : ∀ t, Op.load p' ≠ .exportUid t := by intro t h; cases h
+  have hops : ∀ t, Op.load p' ≠ .seteuidStr t := by intro t h; cases h
+  unfold loadPlain
+  exact withVo_good hw _ _ _ _ _ _ hopx hops fun f0 =>
+    withCfPre_good hrun hw hA _ _ _ _ _ hopx hops (execLoadCore_good hsub hw hA p p' f0 k hk)
+      (fun _ W A2 hW hA2 => execLoadCore_good hsub hW hA2 p p' false k hk)
 
 theorem execLoad_good {cfg : Cfg} {pol : Policy} {i : Nat} {run : Run} {sub : Sub} (hrun : GoodRun cfg.bb run)
     (hsub : GoodSub cfg.bb sub) {w : World} (hw : Inv w) {a : Oid} {A : Obj} (hA : getO w.objs a = some A) (p : Path) :
@@ -267,10 +291,26 @@ theorem execLoad_good {cfg : Cfg} {pol : Policy} {i : Nat} {run : Run} {sub : Su
     simp only [execLoad, hn, if_true]
     exact ⟨h1, Chain.append h2 (Chain.single (plain_seg_ok h1 _ _ _ _ hopx hops)), h3⟩
   have hn' : needsCompile w A p = false := by simpa using hn
+  have hplain := loadPlain_good (pol := pol) (i := i) hrun hsub hw hA p p true none (by intro k' h; cases h)
   simp only [execLoad, hn', Bool.false_eq_true, if_false]
-  exact withVo_good hw _ _ _ _ _ _ hopx hops fun f0 =>
-    withCfPre_good hrun hw hA _ _ _ _ _ hopx hops (execLoadCore_good hsub hw hA p f0)
-      (fun _ W A2 hW hA2 => execLoadCore_good hsub hW hA2 p false)
+  cases hq : p.parent with
+  | none => simp only; exact hplain
+  | some q =>
+    simp only
+    by_cases hc : loadCreates w A p = true ∧ q.name ∉ w.loaded
+    · rw [if_pos hc]
+      apply loadPlain_good hrun hsub hw hA q p true
+      intro k' hk' W hW
+      cases hk'
+      cases hA' : getO W.objs a with
+      | none =>
+        simp only [hA']
+        exact ⟨hW, Chain.single (plain_seg_ok hW _ _ _ _ hopx hops), Keeps.refl _⟩
+      | some A' =>
+        simp only [hA']
+        exact loadPlain_good hrun hsub hW hA' p p false none (by intro k'' h; cases h)
+    · rw [if_neg hc]
+      exact hplain
 
 /-! ### reload_object -/
 
@@ -356,6 +396,9 @@ theorem clonePre_none {w : World} {A : Obj} {newOid : Oid} {p : Path} (h : clone
   by_cases h2 : p.name ∉ w.loaded ∧ getO w.objs p.oid ≠ none
   · rw [if_pos h2] at h; cases h
   rw [if_neg h2] at h
+  by_cases h2' : p.name ∉ w.loaded ∧ p.parent ≠ none
+  · rw [if_pos h2'] at h; cases h
+  rw [if_neg h2'] at h
   by_cases h3 : A.oid ≠ masterOid ∧ A.euid = none
   · rw [if_pos h3] at h; cases h
   exact h3
